@@ -29,7 +29,8 @@ Owned(P, s) ==
     [] OTHER -> TRUE
 LeafOwned == Prop \in {"C03", "C17", "C18", "C20", "ALL"}
 BadLeaves(P) == IF LeafOwned THEN {i \in 1..Len(P.leaves) : LeafVerdict(P, i) = "bad"} ELSE {}
-BadSteps(P) == {s \in 1..Len(P.steps) : Owned(P, s) /\ StepVerdict(P, s) = "bad"}
+TwinOwned == Prop \in {"C18", "ALL"}
+BadSteps(P) == {s \in 1..Len(P.steps) : Owned(P, s) /\ (StepVerdict(P, s) = "bad" \/ (TwinOwned /\ AnyWrapped(P, s) /\ TwinVerdict(P, s) = "bad"))}
 Skipped(P) == Cardinality({s \in 1..Len(P.steps) : Owned(P, s) /\ StepVerdict(P, s) = "skip"})
 Judged(P) == Cardinality({s \in 1..Len(P.steps) : Owned(P, s) /\ StepVerdict(P, s) = "ok"})
 VARIABLES i, badl, bads, skipped, judged
